@@ -70,8 +70,8 @@ def applicable(pid, key, features):
     if pid != 'C17' or features == 'csv,arrow,parquet':
         return True
     have = set(features.split(',')) if features != 'none' else set()
-    if 'parquet' in have:
-        have.add('arrow')
+    # (the `parquet` feature pulls in the arrow CRATE, not the crate's own `arrow` feature: `mod io::arrow` is compiled only with
+    # `--features arrow`, so its obligations are not applicable in the parquet-only configuration)
     m = re.match(r'C17/(?:cannot-establish:)?(C17\.[a-z_]+)', key)
     anchor_feat = None
     for pre, feat in IO_FEATURE_OF.items():
